@@ -62,6 +62,17 @@ class ListingSet:
         return len(self.items)
 
 
+class ExplicitListingSet(ListingSet):
+    def __init__(self, h, listings):
+        self.items = []
+        addrs = [f"{0x401000 + 3 * p:x}" for p in range(64)]
+        for li, insts in enumerate(listings):
+            att = [(addrs[p], m, o) for p, (m, o) in enumerate(insts)]
+            norm = [norm_inst(*x) for x in att]
+            self.items.append((li, h.listing_file(fmt_listing(att)), norm, att))
+
+
+
 def describe_case(pattern, cfg, att):
     return {
         "rule": make_rule_doc(pattern, flags_config(*cfg)),
@@ -171,7 +182,7 @@ def first_item_matches_somewhere(ref, pattern, norm):
     return False
 
 
-def run_rules(h, res, known, rules, lsets, shard, *, prop, macros=None, doc_extra=None):
+def run_rules(h, res, known, rules, lsets, shard, *, prop, macros=None, doc_extra=None, near_miss=None):
     """Explore rules[shard.lo::shard.n] x their listing sets x configs against the reference."""
     from mc.common import flags_config, make_rule_doc
     for ri in range(shard["lo"], len(rules), shard["n"]):
@@ -198,7 +209,7 @@ def run_rules(h, res, known, rules, lsets, shard, *, prop, macros=None, doc_extr
                     res.count("found")
                 else:
                     res.count("notfound")
-                    if first_item_matches_somewhere(ref, rc.pattern, norm):
+                    if near_miss(rc, norm) if near_miss else first_item_matches_somewhere(ref, rc.pattern, norm):
                         res.nontrivial += 1
                 for clause, exp, obs in problems:
                     c = {"rule": doc, "listing": [[a, m, list(o)] for a, m, o in att], "family": rc.family,
